@@ -34,6 +34,18 @@ CLAIMS = {
    note=COMMON_NOTE + "Group membership is a parameter here (C17 proves it equals the databases); SO_PEERCRED is interposed.",
    technique="Lean 4 theorems on kernels/orchestration translated from the C source each run + translation validation + history-based differential run",
    ref="5/C04"),
+
+ "C16": dict(
+   text="Proof. 19 Lean theorems over kernels that tools/gen/g_path.py re-translates from path.c, conf.c, random.c, lock.c and munged.c on every run (per-directory decision of path_is_secure, "
+        "_conf_open_keyfile, _random_read_seed, the creation sites with their mode and umask expressions, which failures are fatal vs forceable, the arguments start-up passes): the "
+        "per-directory predicate equals the statement's condition; path_is_secure is the conjunction over EVERY ancestor up to / (any depth; the string-stripping loop is proved to enumerate "
+        "exactly the ancestors); key file must be regular, non-symlink, owned by euid, no group/other r/w; refusal without --force; for all 512 umasks socket=0777, lock=0200 exactly, "
+        "pid within 0644, log within 0640, seed within 0600; a seed failing vetting is not read and is unlinked. Tie: real path.c/conf.c/random.c/munged.c/lock.c functions under "
+        "ASan with interposed lstat/realpath/geteuid on ~24k scripted stat tables + ~3.6k real-file-system cases + 14 runs of the real munged binary (umask sweep, insecure trees), "
+        "judged by an independent python oracle.",
+   note=COMMON_NOTE + "Linux mode & ~umask semantics and the 0666/0777 defaults of fopen/bind are model assumptions validated by the real-FS stream; the harness runs as root so permission failures of open/unlink are not exercised; path_dirname/path_is_accessible are covered end-to-end only.",
+   technique="Lean 4 theorems (omega, decide over 512 umasks, induction over path components) on kernels translated from the C source each run + differential correspondence + real binary runs",
+   ref="5/C16"),
 }
 NA_REASON = "check not built yet (work in progress, see DESIGN.md section 7 staging)"
 
